@@ -401,7 +401,14 @@ def check_window(ctx, case):
     if with_inter.get("second") != base.get("second"):
         raise Violation(f"C02/window/{verb}/completion_reply_changed_by_interposed_{first_inter}", detail)
     if verb in ("RETR", "LIST", "MLSD"):
-        if norm(with_inter.get("data")) != norm(base.get("data")):
+        def listed(d):
+            # an interposed "MKD /pub/x" legitimately adds the entry "x" to a listing of /pub that is produced after it
+            # (the property is about which location is addressed, not about snapshot isolation): that entry is not compared
+            d = norm(d)
+            if d is not None and verb != "RETR" and "MKD /pub/x" in inter:
+                d = b"".join(ln for ln in d.splitlines(True) if not ln.endswith(b" x\r\n"))
+            return d
+        if listed(with_inter.get("data")) != listed(base.get("data")):
             raise Violation(f"C02/window/{verb}/other_location_served_after_interposed_{first_inter}",
                             dict(detail, served=with_inter.get("data"), expected=base.get("data")))
     else:
